@@ -78,27 +78,35 @@ class WebsocketSession(object):
     def write(self, data):
         """Send raw data."""
         with self._lock:
-            if self._sock is None:
-                log.debug('WebSocket unavailable; data not sent')
-                raise errors.WebSocketUnavailable('not connected')
-            if self.websocket.is_closed:
-                log.debug('WebSocket closed; data not sent')
-                raise errors.WebSocketClosed('data not sent')
-            if self.websocket.is_closing:
-                log.debug('WebSocket closing; data not sent')
-                raise errors.WebSocketClosing('data not sent')
-            try:
-                self._sock.sendall(data)
-            except socket.error as error:
-                log.debug('WebSocket send error; %s', error)
-                raise errors.TransportFail(
-                    'socket fail; {}', error
-                )
-            except Exception as error:
-                log.warning('WebSocket send error; %s', error)
-                raise errors.TransportFail(
-                    'socket error; {}', error
-                )
+            self._check_writable()
+            self._sendall(data)
+
+    def _check_writable(self):
+        """Raise an error if data can not be sent (lock must be held)."""
+        if self._sock is None:
+            log.debug('WebSocket unavailable; data not sent')
+            raise errors.WebSocketUnavailable('not connected')
+        if self.websocket.is_closed:
+            log.debug('WebSocket closed; data not sent')
+            raise errors.WebSocketClosed('data not sent')
+        if self.websocket.is_closing:
+            log.debug('WebSocket closing; data not sent')
+            raise errors.WebSocketClosing('data not sent')
+
+    def _sendall(self, data):
+        """Send raw data over the socket (lock must be held)."""
+        try:
+            self._sock.sendall(data)
+        except socket.error as error:
+            log.debug('WebSocket send error; %s', error)
+            raise errors.TransportFail(
+                'socket fail; {}', error
+            )
+        except Exception as error:
+            log.warning('WebSocket send error; %s', error)
+            raise errors.TransportFail(
+                'socket error; {}', error
+            )
 
     def send(self, opcode, data):
         """Send a WS Frame."""
@@ -106,10 +114,16 @@ class WebsocketSession(object):
         self.write(frame.to_bytes())
         log.debug(' SRV <- CLI : %r', frame)
 
-    def send_compressed(self, opcode, data):
-        """Send a compressed WS Frame."""
-        frame = Frame(opcode, payload=bytearray(data), rsv1=1)
-        self.write(frame.to_bytes())
+    def send_compressed(self, opcode, data, compress):
+        """Compress data and send it as a compressed WS Frame."""
+        # The peer decompresses frames in the order they arrive, with a
+        # context shared by all messages. So compressing and writing
+        # must not be interleaved with other threads, and nothing may
+        # be compressed that isn't then written.
+        with self._lock:
+            self._check_writable()
+            frame = Frame(opcode, payload=bytearray(compress(data)), rsv1=1)
+            self._sendall(frame.to_bytes())
         log.debug(' SRV <- CLI : %r', frame)
 
     @classmethod
